@@ -3,27 +3,43 @@
 import json, glob, os
 ROOT = os.path.dirname(os.path.dirname(os.path.abspath(__file__)))
 kept, dropped = [], []
+
+
+def verdict(o):
+    return 'caught' if o.get('caught') else 'MISSED'
+
+
 for p in sorted(glob.glob(os.path.join(ROOT, 'seeded', '*', 'meta.json'))):
     m = json.load(open(p))
     d = os.path.basename(os.path.dirname(p))
     c = m.get('confirmed', {})
     o = m.get('our_check', {})
+    hist = m.get('our_check_history', [])
+    first = hist[0] if hist else o
     ok = (c.get('demo_without_patch_exit') == 0 and c.get('demo_with_patch_exit') not in (0, None)
           and c.get('existing_suite_with_patch') == 'pass')
+    later = ''
+    if hist:
+        later = '%s (%s)' % (verdict(o), o.get('machinery', ''))
+    note = m.get('strengthened', '')
     row = (d, m.get('property'), ', '.join(m.get('files_changed', [])), (m.get('needs_to_manifest') or '')[:200].replace('\n', ' ').replace('|', '/'),
-           'caught' if o.get('caught') else 'MISSED', m.get('strengthened', ''))
-    (kept if ok else dropped).append((row, c))
+           verdict(first), later, note)
+    (kept if ok else dropped).append((row, c, o))
 with open(os.path.join(ROOT, 'seeded', 'SUMMARY.md'), 'w') as fh:
     fh.write('# Independently seeded changes\n\nProduced by sub-agents that were given only the property text and a scratch worktree; confirmed by '
              'tools/seed_confirm.sh (demo passes on the unchanged code, fails with the patch; the existing test suite passes with the patch — a '
-             'load-sensitive test that fails once is re-run alone five times); then run against our check in isolation (tools/mutant.sh).\n\n')
-    fh.write('| id | property | files changed | needs to manifest | our check | note |\n|---|---|---|---|---|---|\n')
-    for r, _ in kept:
-        fh.write('| %s | %s | %s | %s | %s | %s |\n' % r)
-    fh.write('\n%d kept changes, %d caught by the check as it was when the change arrived (a MISSED entry with a note was caught after the '
-             'check was strengthened; see the note).\n' % (len(kept), sum(1 for r, _ in kept if r[4] == 'caught')))
+             'load-sensitive test that fails once is re-run alone five times); then run against our check in isolation (tools/mutant.sh).\n'
+             'Column "first run" is the verdict of the check as it was when the change arrived; "after strengthening" is the verdict of a later '
+             'version of the machinery (tools/seed_recheck.sh; the meta.json keeps every run with the /verif revision used).\n\n')
+    fh.write('| id | property | files changed | needs to manifest | first run | after strengthening | note |\n|---|---|---|---|---|---|---|\n')
+    for r, _, _ in kept:
+        fh.write('| %s | %s | %s | %s | %s | %s | %s |\n' % r)
+    n_first = sum(1 for r, _, _ in kept if r[4] == 'caught')
+    n_now = sum(1 for _, _, o in kept if o.get('caught'))
+    fh.write('\n%d kept changes; %d caught at the first run, %d caught by the present machinery.\n' % (len(kept), n_first, n_now))
     if dropped:
         fh.write('\n## Not kept (confirmation failed)\n\n')
-        for r, c in dropped:
+        for r, c, _ in dropped:
             fh.write('* %s (%s): %s — our check: %s\n' % (r[0], r[1], json.dumps(c), r[4]))
-print('%d kept, %d caught, %d not kept' % (len(kept), sum(1 for r, _ in kept if r[4] == 'caught'), len(dropped)))
+print('%d kept, %d caught at first run, %d caught now, %d not kept' % (
+    len(kept), sum(1 for r, _, _ in kept if r[4] == 'caught'), sum(1 for _, _, o in kept if o.get('caught')), len(dropped)))
